@@ -31,6 +31,12 @@ func VerifDir() string {
 // RunWorker executes cases [from,to) of one stage and writes the result file.
 func RunWorker(p *Property, tier string, seed int64, stage int, stageName string, from, to int, outPath, logPath string) {
 	w := NewWorker()
+	w.KnownKeys = map[string]bool{}
+	for _, kf := range loadKnownFindings() {
+		if kf.Prop == p.ID {
+			w.KnownKeys[kf.Key] = true
+		}
+	}
 	var logF *os.File
 	if logPath != "" {
 		logF, _ = os.Create(logPath)
@@ -50,7 +56,7 @@ func RunWorker(p *Property, tier string, seed int64, stage int, stageName string
 			c.Fail("panic:harness-or-unguarded", "unguarded panic while running case: %v\n%s", pv, trimStack(stack))
 		}
 		c.Finish()
-		if len(w.res.Violations) >= 40 {
+		if w.Unknown >= 40 {
 			break
 		}
 	}
@@ -305,7 +311,8 @@ func RunDriver(p *Property, tier string, seed int64) int {
 						oc.res = &r
 					}
 				}
-				if err != nil || oc.res == nil || !oc.res.Done {
+				_ = err // a race build exits with status 66 when it reported races: the result file decides
+				if oc.res == nil || !oc.res.Done {
 					if !oc.timeout {
 						oc.crashed = true
 					}
@@ -390,7 +397,6 @@ func RunDriver(p *Property, tier string, seed int64) int {
 			}
 		}
 		if matched {
-			total.Counters["known_finding_hits"]++
 			continue
 		}
 		g, ok := groups[v.Key]
